@@ -157,6 +157,36 @@ CHECKS["C18"] = dict(
          "as the last leg's.",
 )
 
+CHECKS["C07"] = dict(
+    engine="spec/align", category="model_checking",
+    technique="TLA+ state machine VertexCellAlign.tla of one Points/Curve/Surface object (AddData, SetValues, RemoveVertices / "
+              "RemoveCells with every index sequence, masked copies, Reopen; removal arithmetic written line by line after "
+              "cell_object.py) with token-keyed ghost variables; TLC checks the alignment invariants and exports the state graph "
+              "with the predictions of named as-built deviations; a tour cover of every transition is replayed on real .geoh5 files "
+              "and outcome, vertices, cells and all children values are compared after every action (live and re-opened)",
+    text="Exhaustive over the bounded state graphs of spec/align/*.cfg (TLC); every exported transition replayed into geoh5py at "
+         "least once (quick: all; thorough: all but seeded path samples of the three largest graphs). A failing operation is "
+         "required to leave a mutually consistent state, not the pre-state.",
+    design_ref="DESIGN.md section 4; notes/C07.md",
+    note="Bounds n <= 4 vertices, <= 3 cells, 2 data names, index sequences <= 3, numeric data kinds (float, integer, boolean); "
+         "TEXT data, negative indices and growing vertices are not modelled. Trusted: TLC, harness/checks/C07.py, align_cover.py.",
+)
+CHECKS["C19"] = dict(
+    engine="spec/reader", category="fault_enumeration",
+    technique="TLA+ spec ReaderFaults.tla: geoh5 file at the item level (every attribute, link and dataset of project, containers, "
+              "entities, property-group blocks and types), build histories -> DeleteItem(i) -> Open with a model of the reader; TLC "
+              "checks the item model (every item classified from the format documents, Describes/Bystanders sane) and PropertyHolds; "
+              "every (file, item) is exported and replayed: file built with the API, items discovered with raw h5py and matched both "
+              "ways, item deleted, Workspace(path, mode='r'), bystanders compared with the intact projection",
+    text="Model-driven exhaustive single-fault enumeration: for every file of the bounded build histories and every single "
+         "attribute / link / dataset of it, the outcome of opening the damaged file must be inside the set the property allows "
+         "(optional => opens and every non-described entity unchanged; mandatory => error or only the described entities and their "
+         "descendants affected); checked on the reader model by TLC and on geoh5py by replay of every enumerated case.",
+    design_ref="DESIGN.md section 6 (C19); notes/C19.md",
+    note="Small files (<= 3 groups, 2 objects, 3 data, 1 property group; 5 entity classes, 5 data kinds), single removals only, "
+         "mode 'r'; classification optional/mandatory as written in the spec from the format documents; content = public getters.",
+)
+
 NOT_YET = "check not built yet in this round (planned: see DESIGN.md section 7)"
 
 
